@@ -74,7 +74,8 @@ Record guards := mk_guards {
   g_release_stops_renderer : bool;(* ReleaseTerminal stops the renderer (ticker handshake) before restoring the terminal *)
   g_restore_keeps_nosig : bool;  (* RestoreTerminal does not re-enable signals that WithoutSignals switched off *)
   g_rz_guarded : bool;           (* listenForResize selects on ctx.Done; checkResize's sends (p.errs, Send) have a ctx alternative *)
-  g_sig_stays : bool             (* handleSignals keeps listening after it has forwarded a signal *)
+  g_sig_stays : bool;            (* handleSignals keeps listening after it has forwarded a signal *)
+  g_restore_unignores_first : bool  (* RestoreTerminal clears ignoreSignals before its first call that can fail *)
 }.
 
 Inductive ekind := KRt | KEnv | KCbEnd | KBatchMore.
@@ -233,7 +234,10 @@ Definition steps (G : guards) (s : skel) : list (ekind * skel) :=
    | RExecRestore =>
      (* RestoreTerminal: ignoreSignals=0, initTerminal, initCancelReader, modes, renderer.start *)
      [(KRt, set_rl (set_tk (set_ign (set_rd (S RUpdateCb) (match rd s with RdNone => RdNone | RdSendMsg => RdSendMsg | RdSendErr => RdSendErr | _ => RdReading end))
-                                    (if g_release_ignores G then (g_restore_keeps_nosig G && nosig s) else ign s)) TkListen false) false)]
+                                    (if g_release_ignores G then (g_restore_keeps_nosig G && nosig s) else ign s)) TkListen false) false);
+      (* ... or it fails (the input went away while the external program had it): the reader and the ticker are not
+         started again, the terminal stays as released; signals count again only if the flag was cleared first *)
+      (KEnv, set_ign (S RUpdateCb) (if g_release_ignores G && g_restore_unignores_first G then (g_restore_keeps_nosig G && nosig s) else ign s))]
    | RExit e =>
      let '(killed, er) := run_error G s e in
      [(KRt, if negb killed && match er with ENil => true | _ => false end then S RFinalViewCb else S (RSd Sd0 killed er))]
